@@ -67,6 +67,7 @@ type pfunc struct {
 	built        bool
 	inlineDepth  int
 	indMemo      map[string][]fact
+	inGoalInd    int
 	inQuot       bool
 }
 
